@@ -28,7 +28,8 @@ RULE = ('4 model scripts x {unsolved, solved} x extra variables (int, bool, str,
         'to_dataframe, from_dataframe of each data table; linkers with 0..2 submodels x 8 flag combinations; VectorContainer.to_dataframe; '
         'symbols_to_dataframe/dataframe_to_symbols over every script of the program catalogue (all strata). '
         'non-trivial = export with at least one data column / symbol list with at least one symbol'
-        ' The model export cases again on a class stacking ProgressBar/Alias/Tracer mixins with aliases defined (not asked for).')
+        ' The model export cases again on a class stacking ProgressBar/Alias/Tracer mixins with aliases defined (not asked for).'
+        ' All-NaN and boolean data columns through from_dataframe; exported columns against the values put in (scalar string label included).')
 ASSUMPTIONS = [
     'index compared as list(df.index) == list(span) (tuple labels become a MultiIndex)',
     'from_dataframe is compared on the model variables (NAMES); string/bool extras are not constructor inputs',
@@ -71,6 +72,7 @@ def make_model(i, kind, n, solved):
     m.add_variable('Kint', [3 + k for k in range(n)], dtype=int)
     m.add_variable('Qbool', [k % 2 == 0 for k in range(n)], dtype=bool)
     m.add_variable('Sstr', ['s%d' % k for k in range(n)], dtype='<U3')
+    m.add_variable('Region', 'north', dtype=str)                            # a label given once for all periods
     m.add_variable('F32', [0.5 + k for k in range(n)], dtype=np.float32)   # sized dtypes are dtypes too
     m.add_variable('I8', [k - 2 for k in range(n)], dtype=np.int8)
     m.add_variable('U16', [1000 + k for k in range(n)], dtype=np.uint16)
@@ -170,6 +172,10 @@ def _run_model_case(case):
     df2 = tools.model_to_dataframe(m, status=status, iterations=iterations, include_internal=internal)
     out += check_table(df1, m, labels, status, iterations, internal, 'to_dataframe')
     out += check_table(df2, m, labels, status, iterations, internal, 'model_to_dataframe')
+    # ... holding the values that were put in (not only whatever the series holds now)
+    for col, put_in in (('Region', ['north'] * n), ('Sstr', ['s%d' % k for k in range(n)]), ('Kint', [3 + k for k in range(n)])):
+        if not out and (col not in df1.columns or df1[col].tolist() != put_in):
+            out.append(('export:values-put-in', put_in[:3], df1[col].tolist()[:3] if col in df1.columns else 'no column', 'the exported column %s does not hold the values the variable was given' % col))
     if out:
         return out
     out += export_is_a_copy(m, lambda: m.to_dataframe(status=status, iterations=iterations, include_internal=internal), 'to_dataframe')
@@ -188,8 +194,18 @@ def _run_model_case(case):
         if canon(m2[name]) != canon(m[name]):
             out.append(('from_dataframe:values', m[name].tolist(), m2[name].tolist(), 'values of %s not reproduced' % name))
             return out
-    # a variable that is missing in every period (all NaN) is data too: it comes back as NaN, not as the default value
+    # a boolean column (a dummy variable computed from the index) is data as well: it comes back as 1.0 / 0.0
     names = list(model_class(i).NAMES)
+    if names and len(labels):
+        flags = data.copy()
+        flags[names[-1]] = [k % 2 == 0 for k in range(len(labels))]
+        try:
+            m4 = model_class(i).from_dataframe(flags)
+            if canon(np.asarray(m4[names[-1]], dtype=float)) != canon(np.array([float(k % 2 == 0) for k in range(len(labels))])):
+                return [('from_dataframe:boolean-column', [float(k % 2 == 0) for k in range(len(labels))], np.asarray(m4[names[-1]]).tolist(), 'a boolean data column is not read')]
+        except Exception as e:
+            return [('from_dataframe:boolean-column:%s' % type(e).__name__, 'a model', repr(e)[:200], 'from_dataframe failed on a table with a boolean column')]
+    # a variable that is missing in every period (all NaN) is data too: it comes back as NaN, not as the default value
     if names and len(labels):
         hollow = data.copy()
         hollow[names[0]] = np.nan
